@@ -39,7 +39,8 @@ Tokens == <<
   Tok(<<92, 100>>, {}),           \* \d
   Tok(<<32>>, {32}),              \* space
   Tok(<<178>>, {178}),            \* superscript two: a digit for str.isdigit, not for int()
-  Tok(<<1635>>, {1635})           \* arabic-indic digit three
+  Tok(<<1635>>, {1635}),          \* arabic-indic digit three
+  Tok(<<10>>, {10})               \* a raw line feed (an error in such a text must still be positioned)
 >>
 \* indices of the tokens used for the longer sequences
 CoreTokens == {1, 4, 6, 7, 8, 9, 10, 12, 13, 14, 15, 16, 17, 18, 19, 20}
